@@ -162,7 +162,9 @@ def decoder_shape(fn, shift):
 
 
 def printer_follow_bytes(crate, fn_paths):
-    """Constant bytes written by the given separator/closer functions."""
+    """Constant bytes written by the given separator/closer functions, under every option value (the options are
+    symbolic, so a match on them forks over all variants; helpers such as `vector_syntax.closing()` are looked
+    through)."""
     out = {}
     for fp in fn_paths:
         f = crate.fn(fp)
@@ -170,12 +172,19 @@ def printer_follow_bytes(crate, fn_paths):
             out[fp] = None
             continue
         bs = set()
-        for bi, t in f.calls():
-            if t["callee"].get("trait") == "std::io::Write" and t["callee"].get("method") == "write_all":
-                defs = common.defs_of(f)
-                o = common.origin(f, defs, t["args"][1])
-                if o["k"] == "const" and "bytes" in o["op"]:
-                    bs |= set(o["op"]["bytes"])
+        S = sim.Sim([crate], inline=lex.print_inline(crate), max_paths=2000)
+        try:
+            paths = S.run(f)
+        except sim.Limit:
+            out[fp] = {"?"}
+            continue
+        for p in paths:
+            if p.end != "return":
+                continue
+            for ev in p.calls("std::io::Write::write_all"):
+                a = ev[6][1] if len(ev[6]) > 1 else None
+                if isinstance(a, Bytes):
+                    bs |= set(a.b)
                 else:
                     bs.add("?")
         out[fp] = bs
